@@ -140,6 +140,10 @@ def scenario(ctx, props=("C12",), nsrc=2, nev=2, njobs=0, max_mc=3, derived=True
             # a job scheduled while handling the first delivered event, for a symbolic later-or-equal time
             tj = ctx.dt("t_job_from_handler", T0, T_HI + datetime.timedelta(days=5))
             late_job["h"] = schedule_job("job_from_handler", tj)
+            if job_from_handler == 2:
+                # a second one from the same handler: both may be overdue (behind the clock), in either order
+                tj2 = ctx.dt("t_job_from_handler2", T0, T_HI + datetime.timedelta(days=5))
+                late_job["h2"] = schedule_job("job_from_handler2", tj2)
 
     for s in range(nsrc):
         names = []
